@@ -835,6 +835,35 @@ func replayWorker(p *Prop, tier string) int {
 	}
 	c := NewCtx(NewReplay(rf.Seq))
 	c.Tier, c.Dir, c.Replay = tier, wd, true
+	if p.StallLimit > 0 {
+		// a replayed run that stalls in real time (what the worker's watchdog reports as a hang) must not
+		// hang the replay for ever: same limit, same classification
+		Heartbeat()
+		go func() {
+			last, since := beats.Load(), time.Now()
+			for {
+				time.Sleep(p.StallLimit / 8)
+				if b := beats.Load(); b != last {
+					last, since = b, time.Now()
+					continue
+				}
+				if time.Since(since) < p.StallLimit {
+					continue
+				}
+				var v *Violation
+				if p.OnStall != nil {
+					v = p.OnStall(c)
+				}
+				if v == nil {
+					fmt.Printf("replay: the run stalled for %v in real time\n", p.StallLimit)
+					os.Exit(2)
+				}
+				fmt.Printf("replay: %s: %s\n", v.Sig(), v.Msg)
+				fmt.Printf("VIOLATION property=%s replay=%s\n", p.ID, file)
+				os.Exit(1)
+			}
+		}()
+	}
 	v := runOnce(p, c)
 	for _, l := range c.Log {
 		fmt.Println("  " + l)
